@@ -409,6 +409,14 @@ def schema_conform(ctx):
     return trace_stage(ctx, "schema-conform", cmds, "Trace_Schema")
 
 
+def schema_conform_alloc(ctx):
+    # postcard-schema built with `alloc` but without `use-std`: Vec/String/BTreeMap/BTreeSet come from impls/builtins_alloc.rs
+    cargo_build(ctx, "h_schema_alloc")
+    reps = ctx.pick(2, 20)
+    cmds = [([hbin("h_schema_alloc"), "conform", "--reps", str(reps), "--seed", str(ctx.seed * 1000 + i)], f"conform-alloc-{i}.ndjson") for i in range(ctx.pick(2, 4))]
+    return trace_stage(ctx, "schema-conform-alloc", cmds, "Trace_Schema")
+
+
 def _tags(mm):
     return set(mm.get("tags", []))
 
@@ -446,12 +454,14 @@ def run_schema_trees(ctx):
 def run_c14(ctx):
     mc_schema(ctx)
     schema_conform(ctx)
+    schema_conform_alloc(ctx)
 
 
 def run_c16(ctx):
     schema_vectors(ctx)
     schema_trees(ctx)
     schema_conform(ctx)
+    schema_conform_alloc(ctx)
 
 
 SCHEMA_ASSUME = [
